@@ -13,7 +13,7 @@ ASSUMPTIONS = [
     "arbitrary whole files are out of reach of the engine (about one realized path per second): inputs are structured as stated; property and component names are concrete tokens",
     "typed values come from a pool (dates of the years 0001 / 0753 / 9999, signed and zero durations, list values, lower-case names, quoted parameters); value ranges are property C03's subject",
     "raw strings: <= 3 characters over the 13-character alphabet  backslash ; : , DQUOTE % 2 C = SP TAB a N",
-    "the clause 'for well-formed input the first parse recovers exactly what the text denotes' is decided for typed values by C03 (decode direction) and for TEXT by C07; here only stability is asserted; known finding C05-K1 concerns exactness of the FIRST parse only (the result is stable); raw parameter values containing a backslash are excluded (known finding C08-K1: a decoded trailing backslash swallows the next delimiter on re-parse)",
+    "the clause 'for well-formed input the first parse recovers exactly what the text denotes' is decided for typed values by C03 (decode direction) and for TEXT by C07; here only stability is asserted; known finding C01-K1 (same root as C05-K1): URI / CAL-ADDRESS values that still hold a backslash escape after one decoding are not stable and are excluded by the classifier kf_nontext_twice (exact on all strings <= 4 chars over the alphabet); raw parameter values containing a backslash are excluded (known finding C08-K1: a decoded trailing backslash swallows the next delimiter on re-parse)",
 ]
 CONDITIONS = (
     shards("typed", "c01.py", "h_typed", {"container": [0, 1, 2, 3], "second": [False]}, timeout=400,
